@@ -7,6 +7,41 @@ ConcOps == {"CreateUser", "CreateSession", "PGetS"}   \* set-up, then only concu
 PwOps   == {"CreateUser", "SetPassword", "DeleteUser", "Disable", "Enable", "AuthPassword"}           \* credential histories
 SessLifeOps == {"CreateUser", "SetPassword", "DeleteUser", "CreateSession", "DeleteSession", "AuthCookie", "AuthOneTime"}   \* session-life histories
 ConcMixOps == ConcOps \cup {"AuthCookie", "AuthOneTime", "DeleteSession", "SetPassword"}   \* episodes mixed with sequential presentations
+(* Simulation: TLC picks uniformly among SUCCESSOR STATES, so under Next the actions with many argument choices
+   (AuthPassword: users x passwords, CreateSession: slots x users x BOOLEAN) swamp Disable / DeleteUser / Expire.
+   SimNext draws the arguments with RandomElement - one successor per action KIND (the quantifier over a singleton
+   fixes the draw for the whole action).  Arguments are drawn among the values for which the action is enabled;
+   AuthPassword and the presentations come twice: any argument, and the one most likely to succeed. *)
+Pick(S) == {RandomElement(S)}
+Ex   == {u \in Users : user[u].exists}
+ExEn == {u \in Ex : ~user[u].disabled}
+ExDi == {u \in Ex : user[u].disabled}
+Free == {s \in Sessions : ~gSess[s].created}
+Made == {s \in Sessions : gSess[s].created}
+Live == {s \in Sessions : sess[s].exists}
+LiveOne == {s \in Live : sess[s].oneTime}
+SimNext ==
+  /\ Len(hist) < MaxSteps
+  /\ \/ (On("CreateUser") /\ Users \ Ex # {} /\ \E u \in Pick(Users \ Ex), p \in Pick(SetPws) : CreateUser(u, p))
+     \/ (On("SetPassword") /\ Ex # {} /\ \E u \in Pick(Ex), p \in Pick(SetPws) : SetPassword(u, p))
+     \/ (On("Disable") /\ ExEn # {} /\ \E u \in Pick(ExEn) : Disable(u))
+     \/ (On("Enable") /\ ExDi # {} /\ \E u \in Pick(ExDi) : Enable(u))
+     \/ (On("DeleteUser") /\ Ex # {} /\ \E u \in Pick(Ex) : DeleteUser(u))
+     \/ (On("CreateSession") /\ Ex # {} /\ Free # {} /\ \E s \in Pick(Free), u \in Pick(Ex), one \in Pick(BOOLEAN) : CreateSession(s, u, one))
+     \/ (On("CreateSession") /\ On("PGetS") /\ ExEn # {} /\ Free # {} /\ \E s \in Pick(Free), u \in Pick(ExEn) : CreateSession(s, u, TRUE))
+     \/ (On("DeleteSession") /\ Made # {} /\ \E s \in Pick(Made) : DeleteSession(s))
+     \/ (On("Expire") /\ Live # {} /\ \E s \in Pick(Live) : Expire(s))
+     \/ (On("AuthPassword") /\ TryPws # {} /\ \E u \in Pick(Users), p \in Pick(TryPws) : AuthPassword(u, p))
+     \/ (On("AuthPassword") /\ Ex # {} /\ \E u \in Pick(Ex) : user[u].hpw \in TryPws /\ AuthPassword(u, user[u].hpw))
+     \/ (\E op \in Pick(SessOps), s \in Pick(Sessions) : On(op) /\ AuthSess(op, s))
+     \/ (Live # {} /\ \E op \in Pick(SessOps), s \in Pick(Live) : On(op) /\ AuthSess(op, s))
+     \/ (On("PGetS") /\ Made # {} /\ \E q \in Presenters, s \in Pick(Made), kind \in Pick(SessOps) : PGetS(q, s, kind))
+     \/ (On("PGetS") /\ Live # {} /\ \E q \in Presenters, s \in Pick(Live), kind \in Pick(SessOps) : PGetS(q, s, kind))
+     \/ (On("PGetS") /\ LiveOne # {} /\ \E q \in Presenters, s \in Pick(LiveOne), kind \in Pick(SessOps) : PGetS(q, s, kind))
+     \/ (On("PGetS") /\ LiveOne # {} /\ ~Quiet /\ \E q \in Presenters, s \in Pick(LiveOne), kind \in Pick(SessOps) : PGetS(q, s, kind))
+     \/ (\E q \in Presenters : PGetU(q))
+     \/ (\E q \in Presenters : PDel(q))
+SimSpec == Init /\ [][SimNext]_vars
 AllDone == Presenters # {} /\ \A q \in Presenters : pc[q] = "done"
 Export == PrintT(<<"BEH", ToJson([steps |-> hist])>>)
 (* sequential / mixed families: every behaviour of exactly MaxSteps steps that ends with no presentation in flight *)
